@@ -56,6 +56,7 @@ def run(chk):
             if f.qualname != "BaseConnector._release":
                 chk.violation("C06.release", n, K.short(n), f"insertion from {f.qualname}", "a connection enters the pool outside _release() (reuse predicate bypassed)")
 
+    hunt2_rules(chk, repo)
     # ---- C06.eofdone (shared with C02) ------------------------------------------------------------------
     eof_at_completion(chk, repo)
 
@@ -68,8 +69,14 @@ def run(chk):
         K.require_lits(chk, "C06.reacquire", call, [(f"{p}.is_connected()", True, "transport still open")], "a pooled connection is reused only if still connected")
         K.require_lits(chk, "C06.reacquire", call, [([("$A - $B > self._keepalive_timeout", False), ("$A - $B <= self._keepalive_timeout", True)], True, "idle time within keep-alive")],
                        "a pooled connection is reused only within the keep-alive timeout")
-        K.require_lits(chk, "C06.reacquire", call, [(f"{p}.should_close", False, "state may have changed while idle: unsolicited bytes, peer close, error")],
-                       "the reuse predicate is re-evaluated at the moment of reuse")
+        # the reuse predicate holds again at the moment of reuse: either _get() re-evaluates it, or nothing can change it unnoticed while the
+        # connection idles - the connector marks the pooled protocol idle and the protocol closes itself when input leaves it dirty
+        # (then `is_connected()` above is false)
+        if _idle_watch(repo, get, rel, p):
+            chk.ok("C06.reacquire", call, "while pooled the protocol is marked idle, and data_received() closes an idle connection that input left in should_close state: a dirty connection is never `connected` at reuse")
+        else:
+            K.require_lits(chk, "C06.reacquire", call, [(f"{p}.should_close", False, "state may have changed while idle: unsolicited bytes, peer close, error")],
+                           "the reuse predicate is re-evaluated at the moment of reuse")
         # provenance: the protocol comes out of self._conns
         src = [d for d in norm.fn_defs(get.node).def_nodes(p)]
         if any("popleft" in norm.raw(d) or "pop(" in norm.raw(d) for d in src) and M.contains(K._root(get), "self._conns.get($K)"):
@@ -306,3 +313,63 @@ def eof_at_completion(chk, repo, rule="C06.eofdone"):
                     "end-of-body is signalled to the stream only when the whole message (trailer section and final CRLF included) has been consumed: the stream's EOF releases the connection for the next exchange, bytes of this message still outstanding would be read as the start of the next response",
                     construct=K.short(s0.ast), missing="return PayloadState.PAYLOAD_COMPLETE, <rest> right after payload.feed_eof()")
     chk.expect_count(rule, len(starts), 3, "end-of-body signals in HttpPayloadParser.feed_data")
+
+
+def _idle_watch(repo, get, rel, p: str) -> bool:
+    """The idle-flag protocol: _release() sets `<proto>.idle = True` on the path that pools the connection, _get() clears it before the
+    connection is handed out, and every normal exit of ResponseHandler.data_received() passes `if self.idle and self.should_close: close()`."""
+    sets = [s_ for s_ in ast.walk(rel.node) if isinstance(s_, ast.Assign) and isinstance(s_.targets[0], ast.Attribute) and s_.targets[0].attr == "idle" and isinstance(s_.value, ast.Constant) and s_.value.value is True]
+    clears = [s_ for s_ in ast.walk(get.node) if isinstance(s_, ast.Assign) and isinstance(s_.targets[0], ast.Attribute) and s_.targets[0].attr == "idle" and norm.raw(s_.targets[0].value) == p and isinstance(s_.value, ast.Constant) and s_.value.value is False]
+    if not sets or not clears:
+        return False
+    apps = K.exprs(rel, "self._conns[$K].append($X)")
+    if not apps or not all(any(s_.lineno < c.lineno and PC._block_of(s_) is not None and K.stmt_of(c) in (PC._block_of(s_) or []) for s_ in sets) for c, _b in apps):
+        return False
+    dr = repo.func(PROTO, "ResponseHandler.data_received")
+    g = cfg_of(dr.node)
+    watch = [n for n in g.nodes if n.kind == "test" and n.in_finally_copy is None and "self.idle" in norm.raw(n.ast) and "self.should_close" in norm.raw(n.ast)]
+    if not watch:
+        return False
+    wi = [i for i in ast.walk(dr.node) if isinstance(i, ast.If) and any(i.test is w.ast for w in watch)]
+    if not wi or not any(M.contains(b_, "self.close()") or M.contains(b_, "self.abort()") or M.contains(b_, "self.transport.close()") for i in wi for b_ in i.body):
+        return False
+    # no normal continuation of the HTTP parser call avoids the watch (its failure path closes the transport and records the error)
+    feeds = [n for n in g.nodes if n.in_finally_copy is None and isinstance(n.ast, ast.AST) and K.node_has(n, "self._parser.feed_data(...)")]
+    if not feeds:
+        return False
+    pth = g.find_path(None, lambda n: n.kind == "exit" or (n.kind == "stmt" and isinstance(n.ast, ast.Return)), lambda n: n in watch, EXPLICIT, [(f, "n") for f in feeds])
+    return pth is None
+
+
+def hunt2_rules(chk, repo):
+    """Rules written after the second defect hunt (F115-F118)."""
+    HPM = "aiohttp/http_parser.py"
+    # ---- C06.upgrade: only a 101 (or a request) switches the parser to upgraded mode -----------------------------------------------------
+    fd = repo.func(HPM, "HttpParser.feed_data")
+    ups = [s_ for s_ in ast.walk(fd.node) if isinstance(s_, ast.Assign) and norm.raw(s_.targets[0]) == "upgraded" and "msg.upgrade" in norm.raw(s_.value)]
+    if not ups:
+        chk.analysis_error("C06.upgrade: the `upgraded = msg.upgrade and ...` decision was not found in HttpParser.feed_data")
+    for s_ in ups:
+        if any(isinstance(c, ast.Constant) and c.value == 101 for c in ast.walk(s_.value)):
+            chk.ok("C06.upgrade", s_, "a response switches the parser to upgraded mode only with status 101")
+        else:
+            chk.violation("C06.upgrade", s_, K.short(s_, 80), "msg.upgrade and code in (0, 101) and _is_supported_upgrade(msg.headers)",
+                          "any response carrying `Connection: Upgrade` + `Upgrade: websocket` puts the response parser into upgraded mode: after a `426 Upgrade Required` with a body the connection is pooled with upgraded=True, and every byte of the next response is parked in ResponseHandler._tail - the next request times out")
+    # ---- C06.reqclose: a request that says `Connection: close` is the last one on its connection (RFC 9112 9.6) --------------------------------
+    sd = repo.func(REQ, "ClientRequestBase._send")
+    fcs = [c for c in prog.calls_in(sd.node) if norm.raw(c.func) == "protocol.force_close"]
+    guarded = [c for c in fcs if any("close" in l.text.lower() for cl_ in PC.pc(c, raw=True) for l in cl_) or any("hdrs.CONNECTION" in norm.raw(l_.iter) for l_ in K.loop_ancestors(c) if isinstance(l_, ast.For))]
+    if guarded:
+        chk.ok("C06.reqclose", guarded[0], "sending `Connection: close` marks the connection as not reusable")
+    else:
+        chk.violation("C06.reqclose", sd, "Connection: close", "protocol.force_close() when the request's Connection header contains `close`",
+                      "the client announces `Connection: close` but pools the connection when the response does not echo the header: the next request (a POST is not retried) is written into a connection the server is closing and is lost with ServerDisconnectedError")
+    # ---- C06.shortbody: a body shorter than its declared Content-Length leaves the request unfinished on the wire ------------------------------
+    wb = repo.func(REQ, "ClientRequest._write_bytes")
+    arm = [s_ for s_ in ast.walk(wb.node) if isinstance(s_, ast.Assign) and norm.raw(s_.targets[0]) == "writer.length"]
+    chk_ = [c for c in prog.calls_in(wb.node) if norm.raw(c.func) == "protocol.force_close" and any("writer.length" in l.text for cl_ in PC.pc(c, raw=True) for l in cl_)]
+    if arm and chk_:
+        chk.ok("C06.shortbody", chk_[0], "the declared length is counted down while the body is written; bytes still outstanding at the end close the connection")
+    else:
+        chk.violation("C06.shortbody", wb, "await self._body.write_with_length(writer, content_length)", "writer.length = content_length ... if writer.length: protocol.force_close()",
+                      "the declared Content-Length is enforced only as an upper bound: a body that ends early (a generator that stops, a wrong explicit header) leaves the request unfinished, and after an early answer (403/413/redirect) the connection is pooled - the server reads the next request as the missing body bytes")
